@@ -923,8 +923,18 @@ func (em *emitter) emitUnaryOp(expr *ast.UnaryOperator, reg int8, regType reflec
 		case *ast.Identifier:
 			if em.fb.declaredInFunc(operand.Name) {
 				r := em.fb.scopeLookup(operand.Name)
-				em.fb.emitNew(em.types.PointerTo(exprType), reg)
-				em.fb.emitMove(false, -r, reg, regType.Kind())
+				if canEmitDirectly(reflect.Pointer, regType.Kind()) {
+					em.fb.emitNew(em.types.PointerTo(exprType), reg)
+					em.fb.emitMove(false, -r, reg, regType.Kind())
+					return
+				}
+				// The pointer is converted to the type of the destination.
+				em.fb.enterStack()
+				tmp := em.fb.newRegister(reflect.Pointer)
+				em.fb.emitNew(em.types.PointerTo(exprType), tmp)
+				em.fb.emitMove(false, -r, tmp, reflect.Pointer)
+				em.changeRegister(false, tmp, reg, exprType, regType)
+				em.fb.exitStack()
 				return
 			}
 			// Address of a non-local variable.
